@@ -96,14 +96,14 @@ META = {
     "C12": dict(
         text="Fault enumeration: the complete product of retransmission budgets, reply positions, reply kinds, reply delays and post-handshake CEA sequences up to length 3 (about 3 thousand scripts) is executed against the real client under a virtual clock, so timing facts (spacing, which retransmission window a reply falls into) are exact and not load dependent.",
         design_ref="DESIGN.md section 4, C12",
-        note="Timestamps are taken at entry of the transport's Write on the bubble's virtual clock; the scripted peer is built on refcodec.",
-        technique="runtime monitoring under enumerated peer-fault scripts: transport write log (count, identity, spacing in virtual time), dial outcome, close log, handler log, goroutine-leak check at bubble end",
+        note="Timestamps are taken at entry of the transport's Write on the bubble's virtual clock; the scripted peer is built on refcodec. One further child process (TestC12Net) runs every dial entry point over loopback TCP/TLS sockets on the real clock; its verdicts are a failed write or an ended connection, never a deadline.",
+        technique="runtime monitoring under enumerated peer-fault scripts: transport write log (count, identity, spacing in virtual time), dial outcome, close log, handler log, goroutine-leak check at bubble end; plus the dial entry points over real loopback sockets (usable after the dial timeout has elapsed)",
     ),
     "C13": dict(
         text="Fault enumeration: every combination of retransmission budget, interval pair, peer answer pattern and transport schedule (about 260 scripts, repeated) runs against the real watchdog under a virtual clock, so spacing, counts and the instant of the close are exact; liveness is restated as a minimum number of rounds within a virtual horizon.",
         design_ref="DESIGN.md section 4, C13",
-        note="Timestamps are taken at entry of the transport's Write in virtual time; the 'Write returns late' schedule holds the writer inside the transport while the peer's answer is processed - an existing suspension point of the library.",
-        technique="runtime monitoring under enumerated peer/transport fault scripts in virtual time: offline checker over the DWR write log, close log, goroutine dump after close",
+        note="Timestamps are taken at entry of the transport's Write in virtual time; the 'Write returns late' schedule holds the writer inside the transport while the peer's answer is processed - an existing suspension point of the library. One further child process (TestC13Legacy) runs with GODEBUG=asynctimerchan=1 on the real clock (synctest refuses that setting): a peer that reads DWRs slowly and answers at once must never be dropped; no deadline in its verdict.",
+        technique="runtime monitoring under enumerated peer/transport fault scripts in virtual time: offline checker over the DWR write log, close log, goroutine dump after close; plus a real-clock run under the pre-Go-1.23 timer semantics",
     ),
     "C14": dict(
         text="Fault enumeration: the complete set of event orderings up to the bound (several thousand) is executed with the ordering imposed as the schedule through quiescence points, plus randomised racing runs and the watchdog client; verdicts are facts at quiescence (channel closed or not, goroutines present or not), not time-outs.",
